@@ -229,7 +229,7 @@ func C20(r *core.Run) {
 		var cs []c20Case
 		full := c20Kinds(true)
 		red := c20Kinds(false)
-		for _, run := range []string{"2.0.0", "dev"} {
+		for _, run := range []string{"2.0.0", "dev", "2.5.0-rc.1"} {
 			cs = append(cs, c20Case{Running: run})
 			for _, k := range full {
 				cs = append(cs, c20Case{Running: run, Rels: []c20Rel{k}})
@@ -261,7 +261,7 @@ func C20(r *core.Run) {
 			{{"1.9.0", "", "platform", "matching", "valid"}},
 		}
 		kinds := []string{"404", "500", "conn", "trunc"}
-		for _, run := range []string{"2.0.0", "dev"} {
+		for _, run := range []string{"2.0.0", "dev", "2.5.0-rc.1"} {
 			for _, h := range healthy {
 				for k := 1; k <= 4; k++ {
 					for _, kind := range kinds {
@@ -284,7 +284,7 @@ func C20(r *core.Run) {
 		wd := filepath.Join(in.Dir, fmt.Sprint("w", shard))
 		os.MkdirAll(wd, 0o755)
 		masters := map[string]string{}
-		for run, bin := range map[string]string{"2.0.0": "crs-su-2.0.0", "dev": "crs-su-dev"} {
+		for run, bin := range map[string]string{"2.0.0": "crs-su-2.0.0", "dev": "crs-su-dev", "2.5.0-rc.1": "crs-su-2.5.0-rc.1"} {
 			b, err := os.ReadFile(filepath.Join(r.Build, bin))
 			if err != nil {
 				panic(err)
@@ -422,7 +422,7 @@ func C20(r *core.Run) {
 	r.Cov["traces_validated_against_impl"] = tot.Runs
 	r.Cov["distinct_nontrivial"] = tot.Installed
 	r.Cov["exhaustive"] = len(deaths) == 0
-	r.Cov["bound"] = map[string]any{"release_kinds": len(c20Kinds(true)), "releases_per_catalogue": r.Pick(2, 3), "fault_deviations": r.Pick(1, 2), "fault_kinds": "404, 500, connection error, truncated body at request #1..4", "running_versions": []string{"2.0.0", "v0.0.0-dev"}}
+	r.Cov["bound"] = map[string]any{"release_kinds": len(c20Kinds(true)), "releases_per_catalogue": r.Pick(2, 3), "fault_deviations": r.Pick(1, 2), "fault_kinds": "404, 500, connection error, truncated body at request #1..4", "running_versions": []string{"2.0.0", "v0.0.0-dev", "v2.5.0-rc.1 (a pre-release newer than most releases of the menu)"}}
 	r.Cov["rule"] = "every catalogue of <= n releases over the release kinds (version below/equal/above/far above x published/prerelease/draft x platform asset / other platform / none x checksum matching/absent/wrong/for another name x archive valid/corrupt) x running version, plus every placement of <= d HTTP faults over the requests of four reference catalogues; the real binary (repository code + fake transport) is copied into a sandbox and run as `self-update`; afterwards the executable must be byte-identical or the binary packed in a strictly newer, checksum-verified release for this platform with no fault injected; failures need a non-zero exit; states = executions, transitions = HTTP requests served; non-trivial = executions that installed something"
 	r.Cov["samples"] = []any{c20Case{"2.0.0", []c20Rel{{"2.1.0", "", "platform", "wrong", "valid"}}, ""}, c20Case{"dev", []c20Rel{{"3.0.0", "", "other", "matching", "valid"}, {"2.1.0", "", "platform", "matching", "valid"}}, "3:trunc"}}
 	r.Assume = append(r.Assume, "the GitHub REST shape is the fake's (go-github v30 paths: release list, asset by id, browser download URL); TLS and redirects are outside the model",
